@@ -162,7 +162,8 @@ Qed.
 Theorem unknown_errors_only_unknown sec sc inst e :
   In e (unknown_errors sec sc inst) -> exists k, is_unknown sc inst k /\ ve_path e = path sec k.
 Proof.
-  unfold unknown_errors. destruct (find _ val_unknown_table) as [[[p c] s]|]; [|intros []].
+  unfold unknown_errors.
+  destruct (find (fun r => str_eqb (fst (fst r)) (policy_norm (sc_policy sc))) val_unknown_table) as [[[p c] s]|]; [|intros []].
   intro H. apply in_map_iff in H as (k & <- & Hk). exists k. split; [apply unknown_keys_spec; exact Hk|reflexivity].
 Qed.
 
